@@ -278,10 +278,29 @@ func c08Minute(c *core.Ctx, k c08Case) {
 		c.Res.Discarded++
 		return
 	}
+	if c.Search {
+		// a proof obligation or a tie broke: also look at the second half of the minute, where a stamp that is rounded
+		// instead of truncated differs (waits at most half a minute)
+		for i := 0; i < 320 && time.Now().Unix()%60 < 31; i++ {
+			time.Sleep(100 * time.Millisecond)
+		}
+	}
 	t0 := time.Now()
 	_, stamp := protocol.VerifMarshalSession(protocol.VerifSession{Protocol: 2})
 	_, stamp2 := protocol.VerifMarshalDataAck(protocol.VerifDataAck{Protocol: 6})
 	c.Eval("minute", true)
+	// direct oracle: receivers whose clocks are 60 s behind / ahead compute these minute counters (the expression of
+	// Unmarshal, minuteU32_eq_gen) and must accept the stamp Marshal wrote just now
+	if t1 := time.Now(); t0.Unix()/60 == t1.Unix()/60 {
+		for _, d := range []int64{-60e9, 60e9} {
+			cur := uint32(time.Unix(0, t0.UnixNano()+d).Unix() / 60)
+			for i, st := range []uint32{stamp, stamp2} {
+				if !mathext.WithinRange(int64(cur), int64(st), 1) {
+					c.Violate("C08/timestamp/marshal-stamp-outside-60s-window", fmt.Sprintf("%s Marshal at %dns stamped %d; a receiver whose clock is %+d s away counts minute %d and refuses it", []string{"sessionStruct", "dataAckStruct"}[i], t0.UnixNano(), st, d/1e9, cur), k)
+				}
+			}
+		}
+	}
 	m := c.Model.Ask("c08-minute %d", t0.UnixNano())
 	c.Compared()
 	if m != fmt.Sprintf("ok %d", stamp) || stamp != stamp2 {
